@@ -25,6 +25,8 @@ type symSpec struct {
 	OnCall    func(c *ssa.Call, resolve func(*Lin) *Lin) map[AtomID]*Lin
 	ResultIdx int
 	MaxVisits int
+	// FinalSub: atoms whose value is known in this run (e.g. a table entry for the tag under consideration)
+	FinalSub map[AtomID]*Lin
 }
 
 type symResult struct {
@@ -75,6 +77,9 @@ func symPaths(fa *FA, spec symSpec) symResult {
 		if ret, ok := last.(*ssa.Return); ok {
 			res.Paths++
 			v := resolve(fa.expand(ret.Results[spec.ResultIdx]))
+			if spec.FinalSub != nil {
+				v = v.substAll(spec.FinalSub)
+			}
 			key := strings.Join(st.class, ",")
 			if old, has := res.Forms[key]; has && !old.equal(v) {
 				res.Conflict = append(res.Conflict, key)
@@ -239,9 +244,78 @@ func isBinaryProtocolMethod(cal *ssa.Function) bool {
 
 // ufClassify: classes of the (f.Type == K) dispatch and loop decisions; error
 // exits are pruned (only the successful result is compared).
+// tagTableValue: v (through conversions) is a load from an immutable package-level
+// table indexed by the field's type tag; its value for the given tag.
+func tagTableValue(fa *FA, v ssa.Value, tag int64) (int64, bool) {
+	v = stripConv(v)
+	ld, ok := v.(*ssa.UnOp)
+	if !ok || ld.Op != token.MUL {
+		return 0, false
+	}
+	ia, ok := ld.X.(*ssa.IndexAddr)
+	if !ok {
+		return 0, false
+	}
+	g, ok := ia.X.(*ssa.Global)
+	if !ok {
+		return 0, false
+	}
+	if d := desig(fa, stripConv(ia.Index), func(l *Lin) *Lin { return l }, 0); !strings.HasSuffix(d, ".Type") {
+		return 0, false
+	}
+	tc, ok := tableContents(fa.A.P, g)
+	if !ok {
+		return 0, false
+	}
+	return tc[tag&0xff], true
+}
+
 func ufClassify(fa *FA) func(cond ssa.Value, taken bool) (string, bool) {
+	return ufClassifyTag(fa, -1)
+}
+
+// ufClassifyTag: with tag ≥ 0 every decision about the field's type is resolved
+// for that tag (branches that contradict it are pruned, no label is produced).
+func ufClassifyTag(fa *FA, tag int64) func(cond ssa.Value, taken bool) (string, bool) {
 	return func(cond ssa.Value, taken bool) (string, bool) {
 		for _, dc := range condImplies(cond, taken, 0) {
+			if tag >= 0 {
+				if bo, ok := dc.Cond.(*ssa.BinOp); ok {
+					if k, isC := constInt(bo.Y); isC {
+						// a comparison of a table entry for the tag with a constant
+						if tv, isT := tagTableValue(fa, bo.X, tag); isT {
+							holds := false
+							switch bo.Op {
+							case token.GTR:
+								holds = tv > k
+							case token.GEQ:
+								holds = tv >= k
+							case token.LSS:
+								holds = tv < k
+							case token.LEQ:
+								holds = tv <= k
+							case token.EQL:
+								holds = tv == k
+							case token.NEQ:
+								holds = tv != k
+							}
+							if holds != dc.Truth {
+								return "", true
+							}
+							return "", false
+						}
+						if bo.Op == token.EQL || bo.Op == token.NEQ {
+							d := desig(fa, bo.X, func(l *Lin) *Lin { return l }, 0)
+							if strings.HasSuffix(d, ".Type") || d == "param2" {
+								if ((k == tag) == (bo.Op == token.EQL)) != dc.Truth {
+									return "", true
+								}
+								return "", false
+							}
+						}
+					}
+				}
+			}
 			bo, ok := dc.Cond.(*ssa.BinOp)
 			if !ok {
 				continue
@@ -388,16 +462,23 @@ func checkC13(P *Program, r *Result, tier string) {
 		}
 		return false
 	}
+	lcMissing := map[int64]bool{} // types the length function answers without a case of their own (decided under LEN)
 	for _, k := range ks {
 		sp := spec[k]
 		rc, lc, wc := rdCases[k], lnCases[k], wrCases[k]
+		if lc == nil {
+			lcMissing[k] = true
+			lc = &caseInfo{calls: []string{sp[0] + "Length"}, recs: map[int64]int{12: 1, 13: 2, 14: 1, 15: 1}[k]}
+			if sp[0] == "" {
+				lc.calls = []string{"FieldStopLength"}
+			}
+		}
 		detail := ""
 		pos := P.pos(rd.Pos())
 		switch {
 		case rc == nil:
 			detail = "readUnknownField has no case for this type"
-		case lc == nil:
-			detail = "unknownFieldLength has no case for this type"
+		case false:
 		case wc == nil:
 			detail = "writeUnknownField has no case for this type"
 		default:
@@ -798,7 +879,90 @@ func checkC13(P *Program, r *Result, tier string) {
 		r.add("LEN", name, "paths", fmt.Sprintf("%s equals the bytes %s produces on each of the %d path classes (%d+%d paths)", lf.Name(), wf.Name(), len(a.Forms), a.Paths, b.Paths), P.pos(lf.Pos()), ok, detail)
 		return b
 	}
-	wforms := comparePaths("field", ln, wr, mkSpec(A.fa(ln), ln, lns, 0, false), mkSpec(A.fa(wr), wr, wrs, 1, true), 15)
+	// per wire type: both functions are enumerated with every decision about f.Type resolved for that type
+	// (whatever form the dispatch takes: switch, if-chain, merged cases, lookup table)
+	wforms := symResult{Forms: map[string]*Lin{}}
+	{
+		lforms := symResult{Forms: map[string]*Lin{}}
+		tableSub := func(fa *FA, tag int64) map[AtomID]*Lin {
+			sub := map[AtomID]*Lin{}
+			for _, b := range fa.fn.Blocks {
+				for _, in := range b.Instrs {
+					v, isV := in.(ssa.Value)
+					if !isV || !isInteger(v.Type()) {
+						continue
+					}
+					if tv, ok := tagTableValue(fa, v, tag); ok {
+						fa.expand(v)
+						fa.expand(stripConv(v))
+						if id, has := fa.A.byKey["v:"+fa.vkey(stripConv(v))]; has {
+							sub[id] = linConst(tv)
+						}
+						if id, has := fa.A.byKey["v:"+fa.vkey(v)]; has {
+							sub[id] = linConst(tv)
+						}
+					}
+				}
+			}
+			return sub
+		}
+		okAll, detail := true, ""
+		np := 0
+		for _, tag := range ks {
+			ls := mkSpec(A.fa(ln), ln, lns, 0, false)
+			ls.Classify = ufClassifyTag(A.fa(ln), tag)
+			ls.FinalSub = tableSub(A.fa(ln), tag)
+			ws := mkSpec(A.fa(wr), wr, wrs, 1, true)
+			ws.Classify = ufClassifyTag(A.fa(wr), tag)
+			ws.FinalSub = tableSub(A.fa(wr), tag)
+			a, b := symPaths(A.fa(ln), ls), symPaths(A.fa(wr), ws)
+			np += a.Paths + b.Paths
+			pre := fmt.Sprintf("T=%d", tag)
+			key := func(k string) string {
+				if k == "" {
+					return pre
+				}
+				return pre + "," + k
+			}
+			if len(a.Conflict) > 0 || len(b.Conflict) > 0 {
+				okAll, detail = false, fmt.Sprintf("type %d: path classes with more than one form: %v %v", tag, a.Conflict, b.Conflict)
+			}
+			if len(a.Forms) == 0 || len(b.Forms) == 0 {
+				okAll, detail = false, fmt.Sprintf("type %d: no successful path in %s or %s", tag, ln.Name(), wr.Name())
+			}
+			for k, va := range a.Forms {
+				lforms.Forms[key(k)] = va
+				vb, has := b.Forms[k]
+				if !has {
+					okAll, detail = false, "path class "+key(k)+" exists only in "+ln.Name()
+				} else if !va.equal(vb) {
+					okAll, detail = false, "on path class "+key(k)+": "+ln.Name()+" = "+A.linString(va)+" but "+wr.Name()+" advances by "+A.linString(vb)
+				}
+			}
+			for k, vb := range b.Forms {
+				wforms.Forms[key(k)] = vb
+				if _, has := a.Forms[k]; !has {
+					okAll, detail = false, "path class "+key(k)+" exists only in "+wr.Name()
+				}
+			}
+		}
+		if okAll && len(lforms.Forms) < 15 {
+			okAll, detail = false, fmt.Sprintf("only %d path classes enumerated", len(lforms.Forms))
+		}
+		r.add("LEN", "field", "paths", fmt.Sprintf("%s equals the bytes %s produces on each of the %d path classes (per wire type; %d paths)", ln.Name(), wr.Name(), len(lforms.Forms), np), P.pos(ln.Pos()), okAll, detail)
+		// a wire type the length function answers without a case of its own must at least have a successful path there
+		for k := range lcMissing {
+			_, has := lforms.Forms[fmt.Sprintf("T=%d", k)]
+			if !has {
+				for key := range lforms.Forms {
+					if strings.HasPrefix(key, fmt.Sprintf("T=%d,", k)) {
+						has = true
+					}
+				}
+			}
+			r.add("TRIPLE", "unknownfields", "length", fmt.Sprintf("wire type %d is answered by the length function (no case of its own: see LEN)", k), P.pos(ln.Pos()), has && okAll, "")
+		}
+	}
 	// element coverage: k iterations of a container loop write elements 0 … k·w−1 exactly once (w = 2 for maps)
 	for _, t := range []struct {
 		k int64
